@@ -4,6 +4,11 @@ import json, subprocess
 
 # id: (level, engine, technique, level text, level note, design ref)
 CHECKS = {
+ "C02": ("model_checking", "explore",
+         "explicit-state exploration of apply histories: every tuple sequence up to a length bound x every chunking through one handle, vs. each tuple alone on a fresh context",
+         "For each of 60 catalogue definitions (every built-in operator in at least one parameterisation incl. static/dynamic/t_obs helmert, grid operators on the shipped grids, stack pipelines, macros) and each supported direction: all ordered sequences of length 0..4 over a 6-tuple alphabet (two epochs, NaN epoch, out-of-domain, NaN member, duplicate; thorough: length 0..5 over 8 tuples) x every contiguous chunking, plus one 100000-tuple set, all applied through one handle; every per-tuple result must be bit-identical to that tuple transformed alone on a fresh context, counts additive for elementary operators, and the used handle must still behave like a fresh twin. The same tuples go through Vec/array/slice of Coor4D/3D/2D/32, the (T,t) and (T,h,t) adapters and a user container and must agree in the stored dimensions.",
+         "Bit-identity is judged after canonicalising NaN. Sets longer than the bound are represented by one cyclic 100000-tuple set. Coor32 inputs are made f32-exact first.",
+         "DESIGN.md §3 C02"),
  "C18": ("model_checking", "explore+sched",
          "explicit-state exploration of API histories against a registry model, plus exhaustive thread interleavings (shuttle DFS) at grid-cache lock and API-call boundaries",
          "All histories of depth 1..3 over 32 actions (register_op, register_resource, op on two contexts; names with/without colon, colliding with built-ins, file-based macros) and depth 4 over 26 (thorough: 4 full, 5 reduced), for Minimal and Plain: a registry model predicts what every op call binds (documented resolution order, errors for unknown names); in the final state every live operator must have the fingerprint, step list and parameters it had at creation, handles are pairwise distinct and rejected by other contexts. All Plain grid-cache histories of depth <= 5 (thorough 7) over instantiate (two contexts) / clear_grids / rewrite / delete the grid file, with every live operator re-checked after every action. 1728 generated register-file layouts (items, order, LF/CRLF/CR, terminator, prose, prefix names, separate resource file). Three (thorough four) 3-thread harnesses explored over all interleavings with shuttle's DFS scheduler (hook H4 yields before each GRIDS lock).",
@@ -83,7 +88,7 @@ def main():
         },
         "engines": [
             {"name": "space", "path": "/verif/mc/src/engine.rs", "kind_free_text": "exhaustive mixed-radix product enumeration on 16 threads (par_range/decode)", "serves_properties": ["C11", "C16", "C19"]},
-            {"name": "explore", "path": "/verif/mc/src/props", "kind_free_text": "explicit-state / program-tree exploration of the real API against reference models written in Rust", "serves_properties": ["C03", "C04", "C12", "C17", "C18"]},
+            {"name": "explore", "path": "/verif/mc/src/props", "kind_free_text": "explicit-state / program-tree exploration of the real API against reference models written in Rust", "serves_properties": ["C02", "C03", "C04", "C12", "C17", "C18"]},
             {"name": "sched", "path": "/verif/mc/src/props/c18.rs", "kind_free_text": "shuttle DfsScheduler over real threads sharing Plain contexts and the process-wide grid cache; yield points from hook H4", "serves_properties": ["C18"]},
             {"name": "workers", "path": "/verif/mc/src/engine.rs", "kind_free_text": "worker subprocesses (2 MiB stack, 4 GiB address space, watchdog) for hang / overflow / abort detection", "serves_properties": ["C04"]},
         ],
